@@ -123,11 +123,14 @@ func (a *AggregationProcess) Start() {
 }
 
 func (a *AggregationProcess) Stop() {
+	// A worker which is processing a message needs the mutex to finish, and it only takes
+	// the stop signal once it has finished: do not hold the mutex while waiting for it.
 	a.mutex.Lock()
-	for _, worker := range a.workerList {
+	workers := a.workerList
+	a.mutex.Unlock()
+	for _, worker := range workers {
 		worker.stop()
 	}
-	a.mutex.Unlock()
 	a.stopChan <- true
 }
 
